@@ -78,14 +78,43 @@ def _prims():
         24: (dflt(HostName, {}, "h.org"), "example.com", "a.b.c", "-x-", "h.org"),
         25: (lambda d: DecimalNumber(), decimal.Decimal("1.5"), decimal.Decimal("-2"), "x", None),
         26: (lambda d: JSONString(), '{"a": 1}', "[]", "{", None),
+        # AnyOf whose options OVERLAP and normalise differently: the first valid value is accepted by both options
+        # (the first one converts it), the second only by the later option
+        27: (lambda d: AnyOf[DateField, String], "2020-01-31", "some day", 5, None),
+        28: (lambda d: AnyOf[Integer, Float], 3, 2.5, "x", None),
+        29: (lambda d: AnyOf[Enum[PyEnum], String], "A", "zz", 5, None),
     }
     return P, PyEnum
 
 
 INLINES = {12: 1}
-N_PRIMS = 27
+N_PRIMS = 30
 DEFAULTABLE = [0, 1, 2, 3, 4, 5, 8, 17, 18, 19, 20, 21, 23, 24]
 INTERNAL = ("_instantiated", "_none_fields", "_trust_supplied_values", "_skip_validation")
+
+
+_MSG_SUBS = None
+
+
+def canon_msg(e):
+    """text of an exception, without what differs between two processes by construction (addresses, the number in
+    the name of an inline class, the pid in the name of the scratch module)"""
+    global _MSG_SUBS
+    import re
+    if _MSG_SUBS is None:
+        _MSG_SUBS = [(re.compile(r"0x[0-9a-fA-F]+"), "0x"), (re.compile(r"StructureReference_\d+"), "StructureReference_N"),
+                     (re.compile(r"verif_scoped_\d+"), "verif_scoped"), (re.compile(r"verif_world_\w+"), "verif_world"),
+                     # the repr of a class lists its __dict__: the generated serializer and its flags are tracked as
+                     # STATE (ownSerialize / created), they are not part of an error text's content
+                     (re.compile(r"(serialize|_created_fast_serializer|_failed_serializer_creation) = "
+                                 r"(<function \S+ at 0x>|True|False), "), ""),
+                     (re.compile(r",? ?(serialize|_created_fast_serializer|_failed_serializer_creation) = "
+                                 r"(<function \S+ at 0x>|True|False)"), ""),
+                     (re.compile(r"Properties: ?>"), "Properties:>")]
+    s = str(e)
+    for rx, rep in _MSG_SUBS:
+        s = rx.sub(rep, s)
+    return s[:240]
 
 
 def err_name(e):
@@ -295,6 +324,9 @@ class Env:
         for f in src["fields"]:
             body[f["name"]] = self.build_field(f)
         mapper = {f["name"]: f["key"] for f in src["fields"] if f.get("key") and f["key"] != f["name"]}
+        for f in src["fields"]:
+            if f.get("submap"):       # owner-side key names for the nested class: "<field>._mapper": {...}
+                mapper[f["name"] + "._mapper"] = dict(f["submap"])
         if mapper:
             body["_serialization_mapper"] = mapper
         if src.get("addProps") is not None:
@@ -371,6 +403,8 @@ class Env:
     def op_instance(self, c, op):
         if op.get("probe") == "required":
             return self.classes[c](**self.required_kwargs(c))
+        if op.get("probe") == "valid1":      # the SECOND valid value of every field (nested instances: the first)
+            return self.classes[c](**self.valid_kwargs(c, 1))
         return self.instance(c)
 
     def instance(self, c, depth=0):
@@ -406,8 +440,14 @@ class Env:
             out.append(("valid1", self.valid_kwargs(c, 1)))
             if any(f.get("opt") or (f["kind"].get("arr") and "ref" in f["kind"]) for f in fields):
                 out.append(("required-only", self.required_kwargs(c)))
-        except Exception as e:      # a referenced class cannot be instantiated
-            return [("novalid:" + err_name(e), None)]
+        except Exception as e:      # a referenced class cannot be instantiated: the minimal instance is still probed
+            out = [("novalid:" + err_name(e), None)]
+            try:
+                out.append(("required-only", self.required_kwargs(c)))
+            except Exception as e2:
+                out.append(("norequired:" + err_name(e2), None))
+            out.append(("empty", {}))
+            return out
         for f in fields:
             n = f["name"]
             out.append(("missing:" + n, {k: v for k, v in base.items() if k != n}))
@@ -432,18 +472,21 @@ class Env:
         try:
             if kind == "construct":
                 cls(**({} if op.get("probe") == "empty" else self.required_kwargs(c)
-                       if op.get("probe") == "required" else self.valid_kwargs(c)))
+                       if op.get("probe") == "required" else self.valid_kwargs(c, 1 if op.get("probe") == "valid1" else 0)))
             elif kind == "serialize":
-                doc = serialize(self.op_instance(c, op), camel_case_convert=bool(op.get("camel")))
+                x = self.op_instance(c, op)
+                doc = serialize(x, camel_case_convert=bool(op.get("camel")))
                 from typedpy.structures import TypedPyDefaults
                 if isinstance(doc, dict) and not TypedPyDefaults.compact_serialization_default:
                     res["keys"] = sorted(doc)
+                if self.is_fast(c):
+                    res["doc"] = self.doc_shape(c, x, x.serialize())
             elif kind == "deserialize":
                 camel = bool(op.get("camel"))
                 Deserializer(cls, camel_case_convert=camel).deserialize(
                     serialize(self.op_instance(c, op), camel_case_convert=camel))
             elif kind == "trusted":
-                Deserializer(cls).deserialize(serialize(self.instance(c)), direct_trusted_mapping=True)
+                Deserializer(cls).deserialize(serialize(self.op_instance(c, op)), direct_trusted_mapping=True)
             elif kind == "toSchema":
                 before = sorted(cls._required)
                 try:
@@ -461,6 +504,34 @@ class Env:
         except Exception as e:
             res["err"] = err_name(e)
         return res
+
+    def doc_shape(self, c, x, doc):
+        """shape of the document of an instance of class c: keys and nesting along the class-reference fields,
+        every other value erased"""
+        if not isinstance(doc, dict):
+            return None if doc is None else "v"
+        nested = []
+        for f in self.flat_fields(c):
+            k = f["kind"]
+            if "ref" in k:
+                v = getattr(x, f["name"], None)
+                if v is None:
+                    continue
+                cls = self.classes[k["ref"]]
+                if k.get("arr"):
+                    nested.append((k["ref"], list(v), [cls.serialize(i) for i in v]))
+                else:
+                    nested.append((k["ref"], v, cls.serialize(v)))
+        out = {}
+        for key, val in doc.items():
+            hit = next((n for n in nested if val is not None and n[2] == val), None)
+            if hit is None:
+                out[key] = None if val is None else "v"
+            elif isinstance(hit[1], list):
+                out[key] = [self.doc_shape(hit[0], i, d) for i, d in zip(hit[1], val)]
+            else:
+                out[key] = self.doc_shape(hit[0], hit[1], val)
+        return out
 
     def set_default(self, flag, value):
         from typedpy import Structure
@@ -487,6 +558,7 @@ class Env:
                 steps.append({"done": True})
             else:
                 steps.append(self.use(op))
+            steps[-1]["sers"] = sorted(c for c, k in self.classes.items() if "serialize" in k.__dict__)
         return steps
 
     # ---------------------------------------------------------------- state snapshot / fingerprint
@@ -533,14 +605,18 @@ class Env:
                 if len(instances) < 3:
                     instances.append(x)
             except Exception as e:
-                accept.append([name, err_name(e)])
+                accept.append([name, err_name(e), canon_msg(e)])
         fp["accept"] = accept
+        try:
+            fp["signature"] = canon_msg(inspect.signature(cls))
+        except Exception as e:
+            fp["signature"] = {"err": err_name(e)}
 
         def attempt(f):
             try:
                 return {"ok": f()}
             except Exception as e:
-                return {"err": err_name(e)}
+                return {"err": err_name(e), "msg": canon_msg(e)}
         ser = []
         for x in instances:
             r = {}
@@ -606,6 +682,45 @@ class Env:
             fp["schema"] = {"err": err_name(e)}
         fp["requiredAfterSchema"] = sorted(cls._required)
         fp["schemaCode"] = self.schema_code(cls)
+        fp["stub"] = self.stub_text(c)
+
+    def stub_text(self, c):
+        """the .pyi text typedpy generates for the class, among the classes its definition depends on (the generated
+        `serialize` method of a FastSerializable class is not part of the class's definition: its line is dropped)"""
+        from typedpy.stubs.type_helpers import get_stubs_of_structures
+        from typedpy.structures import TypedPyDefaults
+        try:
+            need, stack = [], [c]
+            while stack:
+                d = stack.pop()
+                if d in need or d not in self.srcs:
+                    continue
+                need.append(d)
+                p = self.srcs[d].get("parent")
+                if p:
+                    stack.append(p["c"])
+                for f in self.srcs[d]["fields"]:
+                    if "ref" in f["kind"]:
+                        stack.append(f["kind"]["ref"])
+                    stack.extend(f["kind"].get("refs", []))
+            attrs = {}
+            for d in sorted(need, reverse=True):
+                attrs[self.classes[d].__name__] = self.classes[d]
+            cls = self.classes[c]
+            attrs[cls.__name__] = cls
+            # the generated serializer is state, not definition: it is taken off the class while the stub is made
+            saved = {k: cls.__dict__[k] for k in ("serialize", "_created_fast_serializer") if k in cls.__dict__}
+            for k in saved:
+                delattr(cls, k)
+            try:
+                lines = get_stubs_of_structures({cls.__name__: cls}, attrs, set(),
+                                                TypedPyDefaults.additional_properties_default)
+            finally:
+                for k, v in saved.items():
+                    setattr(cls, k, v)
+            return {"ok": [canon_msg(l) for l in lines if l.strip()]}
+        except Exception as e:
+            return {"err": err_name(e), "msg": canon_msg(e)}
 
     @staticmethod
     def schema_code(cls):
@@ -716,6 +831,8 @@ def _schema_ok(mk):
 
 
 def serve():
+    import logging
+    logging.disable(logging.CRITICAL)      # typedpy's stub generator logs the exceptions it re-raises
     import typedpy  # noqa: F401  (the pristine state every job starts from)
     import typedpy.json_schema  # noqa: F401
     out = sys.stdout
